@@ -212,6 +212,23 @@ impl<'tree> UiObjectDefinition<'tree> {
         &self,
         source: &'s str,
     ) -> Result<UiAttachedTypeBindingMap<'tree, 's>, ParseError<'tree>> {
+        let mut errors = Vec::new();
+        let type_map = self.build_attached_type_map_lossy(source, &mut errors);
+        match errors.into_iter().next() {
+            Some(e) => Err(e),
+            None => Ok(type_map),
+        }
+    }
+
+    /// Creates nested map of attached type property bindings without bailing out on error.
+    ///
+    /// A binding which cannot be inserted (e.g. duplicated one) is reported to `errors`
+    /// and skipped, so the other bindings (and the first definition) are preserved.
+    pub fn build_attached_type_map_lossy<'s>(
+        &self,
+        source: &'s str,
+        errors: &mut Vec<ParseError<'tree>>,
+    ) -> UiAttachedTypeBindingMap<'tree, 's> {
         let mut type_map = UiAttachedTypeBindingMap::new();
         for UiBinding { name, notation } in self.attached_type_bindings() {
             let (type_name, prop_name) = name
@@ -228,12 +245,14 @@ impl<'tree> UiObjectDefinition<'tree> {
                 .or_insert_with(|| (type_name, HashMap::new()));
             match *notation {
                 UiBindingNotation::Scalar(n) => {
-                    try_insert_ui_binding_node(map, &prop_name, n, source)?
+                    if let Err(e) = try_insert_ui_binding_node(map, &prop_name, n, source) {
+                        errors.push(e);
+                    }
                 }
                 UiBindingNotation::Grouped(_) => unreachable!("attached binding can't be grouped"),
             }
         }
-        Ok(type_map)
+        type_map
     }
 
     /// Nodes for the property bindings.
